@@ -338,6 +338,17 @@ def long_arrays(kind):
     return el
 
 
+def gap_arrays(kind):
+    """single-ring polygons (both directions) after missing / empty elements that are NOT first: [A, None, B, C, (), D, E, None, None, F, G]"""
+    sh = [((0, 0), (4, 0), (4, 4), (0, 4), (0, 0)), ((6, 6), (6, 10), (10, 10), (10, 6), (6, 6)), ((1, 1), (5, 2), (2, 6), (1, 1)),
+          ((8, 0), (8, 3), (10, 0), (8, 0))]
+    polys = [(r,) for r in sh] + [(r[::-1],) for r in sh]
+    if kind == "multipolygon":
+        polys = [(p,) for p in polys] + [(polys[0], polys[5]), (polys[2], polys[3], polys[4])]
+    seq = [polys[0], None, polys[1], polys[2], (), polys[3], polys[4], None, None, polys[5], polys[6], polys[7]] + polys[8:]
+    return seq
+
+
 def plan(ctx):
     units = []
     for kind in ("polygon", "multipolygon"):
@@ -395,6 +406,9 @@ def run(ctx):
                 check_array(col, kind, st, T, el, boxes, qpts, deep=False)
                 check_array(col, kind, st, T, el[8:], boxes, qpts, deep=False, pre=el[:8])
                 check_array(col, kind, st, T, el[16:], boxes, qpts, deep=False, pre=el[:16])
+                g = gap_arrays(kind)
+                check_array(col, kind, st, T, g, boxes, qpts, deep=False)
+                check_array(col, kind, st, T, g[2:], boxes, qpts, deep=False, pre=g[:2])
             return
         if mode.startswith("far:"):
             st = mode[4:]
